@@ -1,5 +1,5 @@
 #!/venv/bin/python
-"""tools/verify_seed.py <PROP> <src-dir> <k> [--no-suite] [--checks C01,C02] [--tier quick] [--dest <k'>]
+"""tools/verify_seed.py <PROP> <src-dir> <k> [--no-suite] [--recheck] [--checks C01,C02] [--tier quick] [--dest <k'>]
 
 Confirms a seeded change (made by an independent sub-agent) in a scratch
 worktree of /repo and files it under /verif/seeded/<PROP>-<k>/:
@@ -40,6 +40,9 @@ def main():
     args = [a for a in argv if not a.startswith("--")]
     prop, src, k = args[0], Path(args[1]), args[2]
     no_suite = "--no-suite" in sys.argv
+    recheck = "--recheck" in sys.argv  # seed already filed: demo + checks again at the current heads, suite result kept
+    if recheck:
+        no_suite = True
     tier = "quick"
     checks = [prop]
     dest_k = None
@@ -53,6 +56,8 @@ def main():
     patch = src / f"patch{k}.diff"
     demo = src / f"demo{k}.py"
     meta_in = src / f"meta{k}.json"
+    if (src / "patch.diff").exists():  # a filed seed (seeded/<ID>-<k>/)
+        patch, demo, meta_in = src / "patch.diff", src / "demo.py", src / "meta.json"
     tmp = Path(tempfile.mkdtemp(prefix="seedv."))
     wt = tmp / "wt"
     subprocess.check_call(["git", "-C", "/repo", "worktree", "add", "-q", "--detach", str(wt), "HEAD"])
@@ -105,6 +110,16 @@ def main():
         dest = ROOT / "seeded" / f"{prop}-{dest_k or k}"
         valid = rc0 == 0 and rc1 != 0 and (no_suite or result.get("suite_ok"))
         result["valid_seed"] = bool(valid)
+        if recheck and (dest / "meta.json").exists():
+            meta = json.loads((dest / "meta.json").read_text())
+            meta["rechecked"] = {"repo_head": result["repo_head"], "verif_head": result.get("verif_head"),
+                                 "demo_on_pristine_worktree": f"exit {rc0}", "demo_with_patch": f"exit {rc1}"}
+            if rc0 == 0 and rc1 != 0:
+                meta["checks_run"] = result["checks"]
+                meta["detected_by"] = [c for c, v in result["checks"].items() if v["rc"] == 1]
+            (dest / "meta.json").write_text(json.dumps(meta, indent=1) + "\n")
+            print(json.dumps(result, indent=1))
+            return 0
         if valid:
             dest.mkdir(parents=True, exist_ok=True)
             shutil.copy(patch, dest / "patch.diff")
